@@ -131,6 +131,15 @@ def run(ctx):
             "toxml": lambda interp, a, k, n, calls=calls: (calls.append(("toxml", a, k)), Sym("SERIALISED", truthy=True, pytype=str))[1],
             "toprettyxml": lambda interp, a, k, n, calls=calls: (calls.append(("toprettyxml", a, k)), Sym("SERIALISED", truthy=True, pytype=str))[1],
         })
+        # anything else done to the tree by a serialiser happens in ONE mode only: every other DOM operation is recorded
+        dom_ops = []
+        for meth in ("getElementsByTagName", "getElementsByTagNameNS", "normalize", "cloneNode", "removeChild", "appendChild", "insertBefore", "replaceChild", "setAttribute", "setAttributeNS",
+                     "removeAttribute", "hasChildNodes", "hasAttribute", "getAttribute", "iter", "writexml", "unlink"):
+            root.attrs[meth] = (lambda interp, a, k, n, meth=meth, dom_ops=dom_ops: (dom_ops.append(meth), [])[1])
+        for prop in ("childNodes", "attributes"):
+            root.attrs[prop] = []
+        for prop in ("firstChild", "lastChild", "documentElement", "ownerDocument", "parentNode"):
+            root.attrs[prop] = root
         xml_calls = []
         s = Obj(scls, {"xml": lambda interp, a, k, n: (xml_calls.append(1), root)[1]}, name="survey")
         it = ctx.interp("C15.R1")
@@ -149,6 +158,8 @@ def run(ctx):
             xml_calls[:] = xml_calls[:1]
             calls[:] = calls[:1]
         recs[nm] = (v, calls, len(xml_calls))
+        r1.check(not dom_ops, f"Survey._to_{nm}_xml:tree untouched", "the serialiser only serialises: it neither walks nor edits the tree (that would happen in this mode only)", fn.loc(),
+                 why_fail=f"DOM operations in the serialiser: {sorted(set(dom_ops))}")
     for nm in ("ugly", "pretty"):
         v, calls, nx = recs[nm]
         if v is None:
